@@ -38,6 +38,12 @@ CHECKS = {
          "6-C13", "All sequences of up to 3 (quick) / 4 (thorough) lines over 15 line kinds x version parameter x vlevel are enumerated (exhaustive: true for that part), incrementally and through Gfa(list); the inferred version / VersionError verdict must match the model table for every order and every queued line must appear exactly once."),
  "C18": ("differential across validation levels on generated valid and mutated documents; assignment programs with grammar-judged values checked for when the error surfaces",
          "6-C18", "The same document is loaded at vlevel 0-3 (same graph, same text, monotone acceptance); assignment programs with values the independent grammar accepts or rejects check that an invalid value raises at the assignment at level 3, at write time at level >= 2 and in validate_field at every level, and that valid values are never rejected."),
+ "C14": ("planted-structure graph generation; chains, spelled sequences and re-attached links recomputed by an independent model; search over bijections for fresh names",
+         "6-C14", "Graphs with planted chains (all orientation patterns, cycles, branching, hairpins, parallel links, with and without sequences) are checked against chains recomputed from the text; after merging, the merged segments' sequences/LN, the outward links, bystanders, components, invariants and idempotence are compared with the model."),
+ "C15": ("generated graphs x segment x factor x distribution policy x copy names; oracle derived from the statement (faithful copies, floor-divided counts, distribution as subset + coverage predicates)",
+         "6-C15", "multiply() is run over generated graphs and every factor/policy/name option; copies, counts, copied edges, link distribution (validity predicate: nothing invented, every neighbour kept, every copy served), factor 0/1/negative and bystanders are checked against expectations computed from the text."),
+ "C17": ("construction-based generation (O group derived from a planted walk) with a brute-force enumeration of all walks consistent with an item list; three-way classification (equality / must-raise / validity predicate); multi-line and induced-set models",
+         "6-C17", "Ordered groups are derived from planted walks (elided edges/segments, nested and reversed groups) or mutated; the model enumerates every consistent alternating walk and demands equality, an error, or membership; multi-line definitions and induced sets are compared with models computed from the text."),
 }
 NOT_APPLICABLE = {
 }
